@@ -43,6 +43,7 @@ def run_case(case):
                       max_paths=opts.get("max_paths", 200000))
         cx.trig_mode = opts.get("trig_mode", "float")
         cx.trig_axioms = opts.get("trig_axioms", True)
+        cx.fold_sqrt = opts.get("fold_sqrt", False)
         cx.validate_left = opts.get("validate", 2)
         pending = []
 
